@@ -53,7 +53,11 @@ Inductive VRes := VOk | VNotPow2 | VTooShort | VNotExact | VOverflow.
    the release build wraps to a value that cannot equal a power of two <= 2^63 unless ... see check) *)
 Definition validate_trace_length (a : Assertion) (n : Z) : VRes :=
   if negb (is_pow2 n) then VNotPow2
-  else if is_single a then (if n <=? a_first a then VTooShort else VOk)
+  else if is_single a then
+         (if n <=? a_first a
+          then (* the error payload `(first_step + 1).next_power_of_two()` overflows usize when first_step + 1 > 2^63 *)
+               (if 2 ^ 63 <? a_first a + 1 then VOverflow else VTooShort)
+          else VOk)
   else if is_periodic a then (if n <? a_stride a then VTooShort else VOk)
   else let e := a_nvals a * a_stride a in
        if USIZE_MAX1 <=? e then VOverflow
@@ -240,13 +244,13 @@ Section Field.
 
   (* BoundaryConstraint::new(assertion, inv_g, ..): [a] carries column/first_step/stride, [vals] the values.
      The twiddles for len values are those of the root g^(stride) (= get_root_of_unity(log2 len)). *)
+  Definition bc_poly_offset (a : Assertion) (len : Z) (inv_g : F) : Z * F :=
+    if (1 <? len) && negb (a_first a =? 0) then (a_first a, fpow inv_g (a_first a)) else (0, fone O).
   Definition bc_new (a : Assertion) (vals : list F) (inv_g : F) : BConstraint :=
-    if 1 <? Z.of_nat (length vals) then
-      let poly := idft (fpow inv_g (a_stride a)) (finv O (fofz O (Z.of_nat (length vals)))) vals in
-      if negb (a_first a =? 0)
-      then mkBC (a_col a) poly (a_first a) (fpow inv_g (a_first a))
-      else mkBC (a_col a) poly 0 (fone O)
-    else mkBC (a_col a) vals 0 (fone O).
+    let len := Z.of_nat (length vals) in
+    let poly := if 1 <? len then idft (fpow inv_g (a_stride a)) (finv O (fofz O len)) vals else vals in
+    let off := bc_poly_offset a len inv_g in
+    mkBC (a_col a) poly (fst off) (snd off).
 
   (* BoundaryConstraint::evaluate_at(x, trace_value) *)
   Definition bc_evaluate_at (c : BConstraint) (x tv : F) : F :=
